@@ -2,7 +2,7 @@ import Tahoe.Mutable.PublishLemmas
 import Tahoe.Mutable.PublishRunLemmas
 import Tahoe.Mutable.WireTestv
 /-! C47 — a successful mutable publish is recoverable (property theorems; helper lemmas live in
-    `Tahoe/Mutable/PublishLemmas.lean`). -/
+    `Tahoe/Mutable/PublishLemmas.lean` and `PublishRunLemmas.lean`; the wire model in `WireTestv.lean`). -/
 /-!
 ## Coverage of the statement (properties.jsonl C47)
 
